@@ -69,7 +69,24 @@ def build_network(desc, **kw) -> Network:
     net = Network(reactions=rl, required_species=list(desc.get("required", [])),
                   cooling=list(desc.get("cooling", [])),
                   rate_modifier=desc.get("rate_modifier"), ode_modifier=desc.get("ode_modifier"), **kw)
+    # edits made after the modifiers were attached: ["remove", position] / ["add", reactants, products, index]
+    for e in desc.get("edits", []):
+        if e[0] == "remove":
+            net.remove_reaction(int(e[1]))
+        else:
+            net.add_reaction(Reaction(list(e[1]), list(e[2]), -1.0, -1.0, 1e-10, 0.5, 10.0, ReactionType.GAS_TWOBODY, idxfromfile=int(e[3])))
     return net
+
+
+def final_indices(desc):
+    """the file indices of the reactions a description ends up with (after its edits)"""
+    idx = [desc.get("idx", {}).get(i, i) for i in range(len(desc["reactions"]))]
+    for e in desc.get("edits", []):
+        if e[0] == "remove":
+            idx.pop(int(e[1]))
+        else:
+            idx.append(int(e[3]))
+    return idx
 
 
 class FakeThermal(ThermalProcess):
